@@ -8,7 +8,7 @@ Local Open Scope list_scope.
 
 (* Which variant of getWSHostPort the code under test has: flipped by the
    integrator when proposed_fixes/C20-F23.diff lands. *)
-Definition code_fixed_F23 := false.
+Definition code_fixed_F23 := true.
 
 Definition corr_variant : variant := with_f23 code_fixed_F23.
 
